@@ -216,6 +216,10 @@ IdealOf(C) ==
 \* class predicate of known finding D11 (operand-per-edge): some intersection/exclusion node has an operand made of
 \* more than one edge (a direct list with several targets, or a TTU with several parent types)
 HasMultiEdgeOperand(C) == \E n \in C.N : C.nt[n] = "op" /\ C.label[n] # "union" /\ \E gg \in C.Groups[n] : Cardinality(gg) > 1
+\* class predicate of known finding D16 (re-seeding): an intersection with three or more edges - when the running
+\* intersection becomes empty before the last edge the next edge re-seeds it (`len(weights) == 0` taken for "first edge")
+HasReseedableIntersection(C) == \E n \in C.N : C.nt[n] = "op" /\ C.label[n] = "intersection" /\ Len(C.Out[n]) >= 3
+KnownClass(C) == HasMultiEdgeOperand(C) \/ HasReseedableIntersection(C)
 
 (***************************************************************************)
 (* 4. Impl layer: operators used by the PlusCal transcription              *)
@@ -390,7 +394,7 @@ mi: C := Ctx(Graph(Inputs[ti].m)); ideal := IdealOf(C);
     tcd := [n \in C.N |-> {}];
 mb: print ToJson([rec |-> "input", id |-> Inputs[ti].id, m |-> Inputs[ti].m, g |-> GraphOut(Graph(Inputs[ti].m)),
                   ideal |-> [reasons |-> ideal.reasons, tw |-> ideal.tw, ew |-> ideal.ew, wild |-> ideal.wild, ewild |-> ideal.ewild],
-                  multi |-> HasMultiEdgeOperand(C)]);
+                  multi |-> HasMultiEdgeOperand(C), reseed |-> HasReseedableIntersection(C)]);
     if (C.err # "none") { result := C.err; }
     else if ("RewriteCycleByDFSOrder" \notin Devs /\ C.rwCycle) { result := "modelcycle"; };   \* pre-pass of the D8 fix
 m0: while (result = "running" /\ Unvisited(C, visited) # {}) {
@@ -703,7 +707,7 @@ mi == /\ pc = "mi"
 mb == /\ pc = "mb"
       /\ PrintT(ToJson([rec |-> "input", id |-> Inputs[ti].id, m |-> Inputs[ti].m, g |-> GraphOut(Graph(Inputs[ti].m)),
                         ideal |-> [reasons |-> ideal.reasons, tw |-> ideal.tw, ew |-> ideal.ew, wild |-> ideal.wild, ewild |-> ideal.ewild],
-                        multi |-> HasMultiEdgeOperand(C)]))
+                        multi |-> HasMultiEdgeOperand(C), reseed |-> HasReseedableIntersection(C)]))
       /\ IF C.err # "none"
             THEN /\ result' = C.err
             ELSE /\ IF "RewriteCycleByDFSOrder" \notin Devs /\ C.rwCycle
@@ -804,17 +808,18 @@ ImplOut == Outcome(C, result, nw, ew, nwc, ewc)
 TypeWeights(S) == { <<x[1], x[3], x[4]>> : x \in { y \in S : y[2] = "T" } }     \* drop the key tag
 TypeWeightsE(S) == { <<x[1], x[2], x[4], x[5]>> : x \in { y \in S : y[3] = "T" } }
 
-\* C05: accepted iff well-founded - up to the recorded finding D11 (an operand made of several edges under AND / BUT NOT)
-AcceptIffWellFounded == Done => (Accepted <=> ideal.reasons = {}) \/ HasMultiEdgeOperand(C)
+\* C05: accepted iff well-founded - up to the recorded findings D11 (an operand made of several edges under AND / BUT NOT)
+\* and D16 (re-seeded intersection)
+AcceptIffWellFounded == Done => (Accepted <=> ideal.reasons = {}) \/ KnownClass(C)
 \* a model with a tuple-free rewrite cycle is never accepted, whatever else it contains (no exception)
 RewriteCycleNeverAccepted == Done /\ "rewritecycle" \in ideal.reasons => ~Accepted
 \* C04
 NoPlaceholderVisible == Done /\ Accepted => (\A x \in ImplOut.nw : x[2] = "T") /\ (\A x \in ImplOut.ew : x[3] = "T")
 NoEmptyWeights == Done /\ Accepted => \A n \in C.N : C.nt[n] = "rel" => DOMAIN nw[n] # {}
 WeightsAreTrueMaxHops == Done /\ Accepted /\ ideal.reasons = {} =>
-                            TypeWeights(ImplOut.nw) = ideal.tw \/ HasMultiEdgeOperand(C)
+                            TypeWeights(ImplOut.nw) = ideal.tw \/ KnownClass(C)
 EdgeWeightIsTargetPlusHop == Done /\ Accepted /\ ideal.reasons = {} =>
-                            TypeWeightsE(ImplOut.ew) = ideal.ew \/ HasMultiEdgeOperand(C)
+                            TypeWeightsE(ImplOut.ew) = ideal.ew \/ KnownClass(C)
 \* C11
 WildcardsAreReachablePublicTypes == Done /\ Accepted => ImplOut.nwc = ideal.wild /\ ImplOut.ewc = ideal.ewild
 \* step invariants that explain failures
